@@ -88,6 +88,9 @@ Inductive kind :=
    first MTTKRP call, tapes of the updated factors and of the in-sweep normalisations (both looked up by the mode), reported value *)
 | KNormSweep (X : tensor F) (R : nat) (w0 : option (list F)) (fs0 : list (tensor F)) (ms : list nat) (solve_tape : list (tensor F))
              (norm_tape : list (option (list F) * list (tensor F))) (rep : F)
+(* round 7: tensor_ring_als's sub-problem as the tensordot / transpose / reshape pipeline ON DATA: for every mode its residual must equal the
+   index-level ls_residual2 EXACTLY; for the last mode it is also the reported value *)
+| KTRData (X : tensor F) (cores : list (tensor F)) (rep : F)
 (* round 7: randomised_parafac's gating: recorded values and in-loop callback invocations for the gates (compute, record, cb) *)
 | KRLoop (n_iter_max : nat) (stop_at : option nat) (compute record cb : bool) (n_recorded n_callbacks : nat)
 (* round 7: one iteration of the parafac loop on data with weights / line search (Model/Errors.v:fl_iteration): state and snapshot before,
@@ -211,6 +214,13 @@ Definition agree_kind (k : kind) : bool :=
       let solve := fun (m : nat) (_ : tensor F) (_ : list (tensor F)) => nth (pos m) solve_tape (mk [] []) in
       let norm := fun (m : nat) (st : @cpstate F) => nth (pos m) norm_tape st in
       Nat.eqb (length solve_tape) (length ms) && rel_close (norm_sweep_error Op solve norm true X R ms (w0, fs0)) rep
+  | KTRData X cores rep =>
+      let s := shape X in let N := length s in
+      let r0 := nth 0 (shape (hd (mk [] []) cores)) 0%nat in
+      let cs := map (core_of Op) cores in
+      Nat.eqb (length cores) N &&
+      forallb (fun d => Qeq_bool (toQ (tr_residual2_data Op X cores d)) (toQ (ls_residual2 Op s (tfun Op X) r0 cs d))) (seq 0 N) &&
+      rel_close (tr_residual2_data Op X cores (N - 1), normsq Op s (tfun Op X)) rep
   | KRLoop n stop_at compute record cb nr nc =>
       let c := r_loop_counts n stop_at compute record cb in Nat.eqb (fst c) nr && Nat.eqb (snd c) nc
   | KIter X R card w0 fs0 snw snfs fs1 ms ls it tape jump acc w2 fs2 rep =>
